@@ -9,7 +9,7 @@ for id in $ids; do
   prop=${id%%-*}
   checks="$prop"
   [ -f seeded/$id/also ] && checks="$checks $(cat seeded/$id/also)"
-  git -C /repo apply seeded/$id/patch.diff || { echo "$id: patch does not apply"; continue; }
+  git -C /repo apply /verif/seeded/$id/patch.diff || { echo "$id: patch does not apply"; continue; }
   for c in $checks; do
     ./check $c --tier quick > /tmp/matrix_${id}_$c.log 2>&1; rc=$?
     nv=$(grep -c '^VIOLATION' /tmp/matrix_${id}_$c.log)
